@@ -141,6 +141,14 @@ class Scaler(Transformer):
         """
         self._verify_input(X, "X")
 
+        # Data lacking a feature dimension would be broadcast against the stored
+        # scaling parameters and silently turned into a full-sized array
+        missing_dims = set(self.weights_.dims) - set(X.dims)
+        if missing_dims:
+            raise ValueError(
+                f"Cannot transform data. Dimensions {missing_dims} are not present in data."
+            )
+
         params = self.get_params()
 
         if params["with_center"]:
